@@ -194,12 +194,16 @@ CHECKS = {
     "C15": dict(engine="cfg", category="exploration", design_ref="DESIGN.md §4 C15",
                 technique="runtime monitoring: generated/junk configuration text through the real init/reinit path with "
                           "link-time redirected files+environment, effective-configuration read-back, range oracle, metamorphic "
-                          "line-independence oracle, counting-allocator ledger, ASan/UBSan/LSan",
+                          "line-independence oracle, creation-vs-reload agreement, absolute oracle for directives of known "
+                          "meaning, counting-allocator ledger, ASan/UBSan/LSan",
                 text="Held on the generated inputs explored: arbitrary and grammar-aware junk in resolv.conf, nsswitch/netsvc/"
                      "svc.conf, hosts, host-aliases, RES_OPTIONS, LOCALDOMAIN, sortlist and server strings never crashed, "
                      "leaked (exact ledger) or hung initialisation and gave an error or an in-range configuration; inserting "
                      "comment/blank/unknown/malformed lines into valid files left the effective configuration (after init and "
-                     "after reinit) and all hosts/alias lookups unchanged; failed setters left the previous value in place.",
+                     "after reinit) and all hosts/alias lookups unchanged; failed setters left the previous value in place; "
+                     "creation and reload of unchanged sources agreed; and (profile single) sources of one to three valid "
+                     "directives of known meaning gave exactly the directive's value, documented defaults elsewhere, and "
+                     "hosts/alias lines resolved to what they say.",
                 note="fopen/stat/getenv/gethostname/socket are interposed at link time; ground truth is the channel's fields "
                      "read through ares_private.h."),
     "C16": dict(engine="cfg", category="exploration", design_ref="DESIGN.md §4 C16",
